@@ -167,6 +167,44 @@ func (g G) TS() string {
 	return fmt.Sprintf("20%02d-%02d-%02d %02d:%02d:%02d", g.Intn(100), g.Intn(100), g.Intn(100), g.Intn(100), g.Intn(100), g.Intn(100))
 }
 
+// TSPair: start and end of an interval: independent; equal; or related — the end is the start with ONE field changed, the
+// start made of one two-digit number repeated (12-12-12 12:12:12: its BCD bytes are the same shifted by one, so a parser
+// that compares the wrong six bytes sees "equal"), or the end shifted by exactly one field position.
+func (g G) TSPair() (string, string) {
+	switch g.Intn(6) {
+	case 0:
+		s := g.TS()
+		return s, s
+	case 1:
+		s := g.TS()
+		b := []byte(s)
+		// change one digit of one field (positions of the digits in "20YY-MM-DD hh:mm:ss")
+		pos := []int{2, 3, 5, 6, 8, 9, 11, 12, 14, 15, 17, 18}[g.Intn(12)]
+		b[pos] = byte('0' + (int(b[pos]-'0')+1+g.Intn(8))%10)
+		return s, string(b)
+	case 2:
+		k := []int{12, 11, 10, 1, 2, 5, 9, 20, 22, 23, 0, 59}[g.Intn(12)]
+		s := fmt.Sprintf("20%02d-%02d-%02d %02d:%02d:%02d", k, k, k, k, k, k)
+		e := []byte(s)
+		pos := []int{17, 18, 14, 15}[g.Intn(4)]
+		e[pos] = byte('0' + (int(e[pos]-'0')+1+g.Intn(4))%6)
+		if g.Bool() {
+			return s, string(e)
+		}
+		return string(e), s
+	case 3:
+		// the end's fields are the start's fields moved up by one: yy<-mm, mm<-dd, dd<-hh, hh<-mm, mm<-ss, ss random
+		var f [6]int
+		for i := range f {
+			f[i] = g.Intn(60)
+		}
+		s := fmt.Sprintf("20%02d-%02d-%02d %02d:%02d:%02d", f[0], f[1], f[2], f[3], f[4], f[5])
+		e := fmt.Sprintf("20%02d-%02d-%02d %02d:%02d:%02d", f[1], f[2], f[3], f[4], f[5], g.Intn(60))
+		return s, e
+	}
+	return g.TS(), g.TS()
+}
+
 // ListLen: 0,1,2,3,max or random.
 func (g G) ListLen(max int) int {
 	switch g.Intn(8) {
@@ -635,10 +673,7 @@ func BigCases(g G) []TCase {
 	for _, n := range []int{2340, 2341, 4000} {
 		t := &model.T0x1205{SerialNumber: g.U16(), AudioVideoResourceTotal: uint32(n)}
 		for i := 0; i < n; i++ {
-			st, et := g.TS(), g.TS()
-			if g.Chance(1, 3) { // a resource of zero length: start and end the same instant
-				et = st
-			}
+			st, et := g.TSPair()
 			t.AudioVideoResourceList = append(t.AudioVideoResourceList, model.T0x1205AudioVideoResource{ChannelNo: g.U8(), StartTime: st, EndTime: et, AlarmFlag: g.U64(), AudioVideoResourceType: g.U8(), StreamType: g.U8(), MemoryType: g.U8(), FileSizeByte: g.U32()})
 		}
 		out = append(out, TCase{Name: fmt.Sprintf("T0x1205/%d-resources", n), Type: "T0x1205", ID: 0x1205, Ver: V13, Val: t, Mk: func() TwoWay { return &model.T0x1205{} }})
@@ -721,15 +756,13 @@ func Cases(g G) []TCase {
 		add("T0x0805", "T0x0805", 0x0805, V13, t, func() TwoWay { return &model.T0x0805{} })
 	}
 	add("T0x1003", "T0x1003", 0x1003, V13, &model.T0x1003{EnterAudioEncoding: g.U8(), EnterAudioChannelsNumber: g.U8(), EnterAudioSampleRate: g.U8(), EnterAudioSampleDigits: g.U8(), AudioFrameLength: g.U16(), HasSupportedAudioOutput: g.U8(), VideoEncoding: g.U8(), TerminalSupportedMaxNumberOfAudioPhysicalChannels: g.U8(), TerminalSupportedMaxNumberOfVideoPhysicalChannels: g.U8()}, func() TwoWay { return &model.T0x1003{} })
-	add("T0x1005", "T0x1005", 0x1005, V13, &model.T0x1005{StartTime: g.TS(), EndTime: g.TS(), BoardNumber: g.U16(), AlightNumber: g.U16()}, func() TwoWay { return &model.T0x1005{} })
+	sp1, ep1 := g.TSPair()
+	add("T0x1005", "T0x1005", 0x1005, V13, &model.T0x1005{StartTime: sp1, EndTime: ep1, BoardNumber: g.U16(), AlightNumber: g.U16()}, func() TwoWay { return &model.T0x1005{} })
 	{
 		n := g.ListLen(36)
 		t := &model.T0x1205{SerialNumber: g.U16(), AudioVideoResourceTotal: uint32(n)}
 		for i := 0; i < n; i++ {
-			st, et := g.TS(), g.TS()
-			if g.Chance(1, 3) { // a resource of zero length: start and end the same instant
-				et = st
-			}
+			st, et := g.TSPair()
 			t.AudioVideoResourceList = append(t.AudioVideoResourceList, model.T0x1205AudioVideoResource{ChannelNo: g.U8(), StartTime: st, EndTime: et, AlarmFlag: g.U64(), AudioVideoResourceType: g.U8(), StreamType: g.U8(), MemoryType: g.U8(), FileSizeByte: g.U32()})
 		}
 		add("T0x1205", "T0x1205", 0x1205, V13, t, func() TwoWay { return &model.T0x1205{} })
@@ -778,13 +811,15 @@ func Cases(g G) []TCase {
 		if g.Chance(1, 3) {
 			ip, _ = g.Plausible(255)
 		}
+		sp3, ep3 := g.TSPair()
 		add("P0x9101", "P0x9101", 0x9101, V13, &model.P0x9101{ServerIPLen: byte(len(ip)), ServerIPAddr: ip, TcpPort: g.U16(), UdpPort: g.U16(), ChannelNo: g.U8(), DataType: g.U8(), StreamType: g.U8()}, func() TwoWay { return &model.P0x9101{} })
-		add("P0x9201", "P0x9201", 0x9201, V13, &model.P0x9201{ServerIPLen: byte(len(ip)), ServerIPAddr: ip, TcpPort: g.U16(), UdpPort: g.U16(), ChannelNo: g.U8(), MediaType: g.U8(), StreamType: g.U8(), MemoryType: g.U8(), PlaybackWay: g.U8(), PlaySpeed: g.U8(), StartTime: g.TS(), EndTime: g.TS()}, func() TwoWay { return &model.P0x9201{} })
+		add("P0x9201", "P0x9201", 0x9201, V13, &model.P0x9201{ServerIPLen: byte(len(ip)), ServerIPAddr: ip, TcpPort: g.U16(), UdpPort: g.U16(), ChannelNo: g.U8(), MediaType: g.U8(), StreamType: g.U8(), MemoryType: g.U8(), PlaybackWay: g.U8(), PlaySpeed: g.U8(), StartTime: sp3, EndTime: ep3}, func() TwoWay { return &model.P0x9201{} })
 	}
 	add("P0x9102", "P0x9102", 0x9102, V13, &model.P0x9102{ChannelNo: g.U8(), ControlCmd: g.U8(), CloseAudioVideoData: g.U8(), StreamType: g.U8()}, func() TwoWay { return &model.P0x9102{} })
 	add("P0x9105", "P0x9105", 0x9105, V13, &model.P0x9105{ChannelNo: g.U8(), PackageLossRate: g.U8()}, func() TwoWay { return &model.P0x9105{} })
 	add("P0x9202", "P0x9202", 0x9202, V13, &model.P0x9202{ChannelNo: g.U8(), PlayControl: g.U8(), PlaySpeed: g.U8(), DateTime: g.TS()}, func() TwoWay { return &model.P0x9202{} })
-	add("P0x9205", "P0x9205", 0x9205, V13, &model.P0x9205{ChannelNo: g.U8(), StartTime: g.TS(), EndTime: g.TS(), AlarmFlag: g.U64(), MediaType: g.U8(), StreamType: g.U8(), StorageType: g.U8()}, func() TwoWay { return &model.P0x9205{} })
+	sp2, ep2 := g.TSPair()
+	add("P0x9205", "P0x9205", 0x9205, V13, &model.P0x9205{ChannelNo: g.U8(), StartTime: sp2, EndTime: ep2, AlarmFlag: g.U64(), MediaType: g.U8(), StreamType: g.U8(), StorageType: g.U8()}, func() TwoWay { return &model.P0x9205{} })
 	{
 		ls := []int{g.Intn(20), g.Intn(20), g.Intn(20), g.Intn(20)}
 		ls[g.Intn(4)] = g.Len8(20) // one of the four length-prefixed strings may be long
